@@ -1807,7 +1807,6 @@ func (g *IG) nilArgEdges() map[edge]bool {
 	})
 }
 
-
 // thinAtomicWrapper: the callee is a one-line method around one atomic operation on a field of its receiver with constant
 // operands ("tryAcquire() bool { return atomic.CompareAndSwapUint32(&m.status, idle, processing) }"); the call then IS that
 // operation, performed on the caller's receiver argument, and its value is the operation's value.
